@@ -18,9 +18,13 @@
      heights_le_best`); the `assert_eq!(header.block_hash(), conf_hash)` panic on a re-confirmation
      in a different block without a prior unconfirm is a contract violation and is not modelled
      (the model skips the transaction as already known);
-   * `outputs_to_watch` / `filter_block` (which transactions are relevant at all) and the
-     OnchainTxHandler (claim generation / bumping) are not modelled. -/
+   * `outputs_to_watch` / `filter_block` (which transactions are relevant at all) are not modelled;
+   * the OnchainTxHandler is modelled at the level of its reorg bookkeeping only (section "claims
+     layer" at the end of this file): which outpoints have a claim registered, each with its CREATION
+     HEIGHT, the handler's own awaiting entries, and what connect / disconnect / unconfirm / preimage
+     do to them; claim transactions, aggregation, bumping and time-locked packages are not modelled. -/
 import LdkModel.Generated.Timing
+import LdkModel.Generated.ClaimHeights
 namespace Ldk.ChainView
 open Ldk
 
@@ -280,5 +284,226 @@ structure Presents (b0 : Nat) (c : Chain) (ops : List Op) : Prop where
 def Sorted (b0 : Nat) : Chain → Prop
   | [] => True
   | b :: r => b0 < b.height ∧ Sorted b.height r
+
+/-! ### claims layer: `OnchainTxHandler::claimable_outpoints` with creation heights
+
+Mirrors, for a set of *tracked* outputs (the HTLC outputs of a commitment transaction that this monitor
+claims with a preimage), lightning/src/chain/onchaintx.rs `claimable_outpoints :
+HashMap<OutPoint, (ClaimId, u32 /* creation height */)>` and the handler's own
+`onchain_events_awaiting_threshold_conf`, driven by ChannelMonitorImpl::{transactions_confirmed,
+best_block_updated, blocks_disconnected, transaction_unconfirmed, provide_payment_preimage}.  Every
+height decision is a GENERATED function of `Ldk.ClaimHeights` (tools/gen_claims.py, translated from the
+Rust text on every run). -/
+
+open Ldk.ClaimHeights
+
+/-- a tracked output: the transaction that creates it, the preimage its claim needs (if any), and
+    whether it sits on OUR commitment (`HolderHTLCOutput`) or on the counterparty's
+    (`CounterpartyOfferedHTLCOutput`) -/
+structure OutInfo where
+  parent : Nat
+  needs : Option Nat
+  holder : Bool
+  deriving DecidableEq, Repr, Inhabited
+
+/-- the claim catalog: tracked outputs, which outputs each transaction spends, and the outputs
+    (with their parent transaction) whose claim is time-locked and malleable
+    (`CounterpartyReceivedHTLCOutput`): they sit in `locktimed_packages`, not in `claimable_outpoints`,
+    but a confirmed spend of one still makes the handler split the package off into an awaiting
+    entry.  (Time-locked `HolderHTLCOutput` packages are untractable: `split_package` refuses, no
+    entry; they may be listed in `CSt.locked` but never in `ClaimCat.locked`.) -/
+structure ClaimCat where
+  outs : List (Nat × OutInfo)
+  spends : Nat → List Nat
+  locked : List (Nat × Nat) := []
+
+/-- an entry of `claimable_outpoints` (with a `pending_claim_requests` entry behind it) -/
+structure Claim where
+  out : Nat
+  creation : Nat
+  deriving DecidableEq, Repr, Inhabited
+
+/-- an entry of the OnchainTxHandler's own `onchain_events_awaiting_threshold_conf`
+    (`Claim` / `ContentiousOutpoint`): transaction `txid`, confirmed at `height`, spends tracked output `out` -/
+structure HEntry where
+  txid : Nat
+  height : Nat
+  out : Nat
+  deriving DecidableEq, Repr, Inhabited
+
+structure CSt where
+  st : St
+  claims : List Claim
+  hAw : List HEntry
+  /-- `payment_preimages` (ids of the preimages the monitor knows) -/
+  pre : List Nat
+  /-- outputs currently in `locktimed_packages` (their locktime is never reached in the model) -/
+  locked : List Nat := []
+  deriving DecidableEq, Repr, Inhabited
+
+def cinit (best : Nat) : CSt := { st := init best, claims := [], hAw := [], pre := [], locked := [] }
+
+inductive COp where
+  | chain (op : Op)
+  /-- `ChannelMonitorUpdateStep::PaymentPreimage` → provide_payment_preimage -/
+  | preimage (p : Nat)
+  deriving DecidableEq, Repr, Inhabited
+
+def hasClaim (cl : List Claim) (o : Nat) : Bool := cl.any (fun c => c.out == o)
+
+/-- mirrors update_claims_view_from_requests for one single-outpoint request: ignored when the
+    outpoint is already in `claimable_outpoints`, otherwise registered with
+    `creation_height = outpoint_confirmation_height.unwrap_or(conf_height)` (generated) -/
+def register (confHeight : Nat) (cl : List Claim) (req : Nat × Option Nat) : List Claim :=
+  if hasClaim cl req.1 then cl else cl ++ [{ out := req.1, creation := claimCreationHeight req.2 confHeight }]
+
+def registerAll (confHeight : Nat) (cl : List Claim) (reqs : List (Nat × Option Nat)) : List Claim :=
+  reqs.foldl (register confHeight) cl
+
+def preKnown (pre : List Nat) : Option Nat → Bool
+  | none => true
+  | some p => pre.contains p
+
+/-- the requests check_spend_counterparty_transaction / check_spend_holder_transaction build when
+    transaction `t` is first seen confirmed at `h`: one per tracked output of `t` whose preimage is
+    known, carrying the generated outpoint confirmation height -/
+def confirmRequests (K : ClaimCat) (pre : List Nat) (h t : Nat) : List (Nat × Option Nat) :=
+  K.outs.filterMap (fun oi =>
+    if oi.2.parent == t && preKnown pre oi.2.needs then
+      some (oi.1, if oi.2.holder then holderStoredHeight (holderConfirmOutpointHeight h) else counterpartyConfirmOutpointHeight h)
+    else none)
+
+/-- mirrors the first half of update_claims_view_from_matched_txn: a confirmed transaction that
+    spends an outpoint with a registered claim gets a handler-side awaiting entry (once) -/
+def noteSpends (K : ClaimCat) (cl : List Claim) (lk : List Nat) (h : Nat) (hAw : List HEntry) (t : Nat) : List HEntry :=
+  (K.spends t).foldl (fun acc o =>
+    let e : HEntry := { txid := t, height := h, out := o }
+    if (hasClaim cl o || (lk.contains o && K.locked.any (fun op => op.1 == o))) && !acc.contains e then acc ++ [e] else acc) hAw
+
+/-- mirrors the second half: entries that reached the (generated) handler threshold remove the claim
+    they resolve -/
+def handlerMature (cur : Nat) (cl : List Claim) (hAw : List HEntry) : List Claim × List HEntry :=
+  let done := hAw.filter (fun e => handlerReached cur e.height)
+  (cl.filter (fun c => !done.any (fun e => e.out == c.out)), hAw.filter (fun e => !handlerReached cur e.height))
+
+/-- mirrors OnchainTxHandler::blocks_disconnected(new_best_height) on the bookkeeping -/
+def handlerDisconnect (newBest : Nat) (cl : List Claim) (hAw : List HEntry) : List Claim × List HEntry :=
+  (cl.filter (fun c => !claimDropped c.creation newBest), hAw.filter (fun e => !handlerEntryDropped e.height newBest))
+
+/-- transactions_confirmed → block_confirmed: requests of the newly seen transactions
+    (`update_claims_view_from_requests(.., conf_height = h, cur = best)`), then
+    `update_claims_view_from_matched_txn` for all announced transactions -/
+def cTxsConfirmed (cat : Catalog) (K : ClaimCat) (s : CSt) (h : Nat) (txs : List Nat) : CSt :=
+  let st' := txsConfirmed cat s.st h txs
+  let reqs := (txs.filter (fun t => !known s.st t)).flatMap (confirmRequests K s.pre h)
+  let cl1 := registerAll h s.claims reqs
+  -- time-locked requests of the newly seen transactions go to `locktimed_packages` (once)
+  let lk1 := (K.locked.filter (fun op => txs.any (fun t => t == op.2 && !known s.st t))).foldl
+    (fun acc op => if acc.contains op.1 then acc else acc ++ [op.1]) s.locked
+  let aw1 := txs.foldl (noteSpends K cl1 lk1 h) s.hAw
+  -- a spent time-locked package is split off into its ContentiousOutpoint entry
+  let lk2 := lk1.filter (fun o => !aw1.any (fun e => e.out == o))
+  let r := handlerMature st'.best cl1 aw1
+  { s with st := st', claims := r.1, hAw := r.2, locked := lk2 }
+
+/-- the time-locked packages of dropped ContentiousOutpoint entries go back to `locktimed_packages` -/
+def relock (K : ClaimCat) (newBest : Nat) (hAw : List HEntry) (lk : List Nat) : List Nat :=
+  (hAw.filter (fun e => handlerEntryDropped e.height newBest && K.locked.any (fun op => op.1 == e.out))).foldl
+    (fun acc e => if acc.contains e.out then acc else acc ++ [e.out]) lk
+
+def cRewind (K : ClaimCat) (s : CSt) (h : Nat) : CSt :=
+  let r := handlerDisconnect h s.claims s.hAw
+  { s with st := rewindTo s.st h, claims := r.1, hAw := r.2, locked := relock K h s.hAw s.locked }
+
+/-- best_block_updated: a higher block runs block_confirmed with nothing new (handler maturity at
+    the new height); otherwise the re-org branch -/
+def cBestBlock (K : ClaimCat) (s : CSt) (h : Nat) : CSt :=
+  if h > s.st.best then
+    let r := handlerMature h s.claims s.hAw
+    { s with st := bestBlock s.st h, claims := r.1, hAw := r.2 }
+  else cRewind K s h
+
+def cBlocksDisconnected (K : ClaimCat) (s : CSt) (h : Nat) : CSt := if h < s.st.best then cRewind K s h else s
+
+/-- transaction_unconfirmed: the monitor part, then OnchainTxHandler::transaction_unconfirmed, which
+    looks the txid up in the HANDLER's awaiting entries and rewinds to `height - 1` (generated) -/
+def cTxUnconfirmed (K : ClaimCat) (s : CSt) (t : Nat) : CSt :=
+  let st' := txUnconfirmed s.st t
+  match s.hAw.find? (fun e => e.txid == t) with
+  | some e =>
+    let r := handlerDisconnect (unconfirmedRewind e.height) s.claims s.hAw
+    { s with st := st', claims := r.1, hAw := r.2, locked := relock K (unconfirmedRewind e.height) s.hAw s.locked }
+  | none => { s with st := st' }
+
+/-- `funding_spend_confirmed` / the first awaiting FundingSpendConfirmation, as provide_payment_preimage
+    looks them up: (txid, irrevocable?, height of the awaiting entry) -/
+def fundingSpend (st : St) : Option (Nat × Bool × Option Nat) :=
+  match st.matured.find? (fun e => e.ev.kind == 2) with
+  | some e => some (e.txid, true, none)
+  | none =>
+    match st.awaiting.find? (fun e => e.ev.kind == 2) with
+    | some e => some (e.txid, false, some e.height)
+    | none => none
+
+/-- `payment_preimages.entry(hash).or_insert(..)` -/
+def addPre (pre : List Nat) (p : Nat) : List Nat := if pre.contains p then pre else pre ++ [p]
+
+/-- the claim requests provide_payment_preimage builds for preimage `p` (`pre'` = the preimages known
+    including `p`): none unless a commitment transaction is confirmed (the early `return`).
+    Counterparty commitment: the outputs needing exactly this preimage, dated by the generated
+    `preimageSpendHeight`; holder commitment: every output whose preimage is known, dated by the
+    generated `holderPreimageOutpointHeight`. -/
+def preimageRequests (K : ClaimCat) (st : St) (pre' : List Nat) (p : Nat) : List (Nat × Option Nat) :=
+  match fundingSpend st with
+  | none => []
+  | some (txid, final, awH) =>
+    match preimageSpendHeight final awH st.best with
+    | none => []
+    | some spendHeight =>
+      K.outs.filterMap (fun oi =>
+        if oi.2.parent == txid then
+          if oi.2.holder then
+            (if preKnown pre' oi.2.needs then some (oi.1, holderStoredHeight (holderPreimageOutpointHeight st.best)) else none)
+          else (if oi.2.needs == some p then some (oi.1, spendHeight) else none)
+        else none)
+
+/-- the `conf_height` provide_payment_preimage hands to update_claims_view_from_requests (generated;
+    both branches pass the best height) -/
+def preimageRegisterHeight (K : ClaimCat) (st : St) : Nat :=
+  if K.outs.any (fun oi => oi.2.holder) then holderPreimageConfHeight st.best else preimageConfHeight st.best
+
+/-- mirrors provide_payment_preimage: remember the preimage, register the requests it makes possible -/
+def cPreimage (K : ClaimCat) (s : CSt) (p : Nat) : CSt :=
+  let pre' := addPre s.pre p
+  { s with pre := pre', claims := registerAll (preimageRegisterHeight K s.st) s.claims (preimageRequests K s.st pre' p) }
+
+def cstep (cat : Catalog) (K : ClaimCat) (s : CSt) : COp → CSt
+  | .chain (.blockConnected h txs) => cTxsConfirmed cat K s h txs
+  | .chain (.txsConfirmed h txs) => cTxsConfirmed cat K s h txs
+  | .chain (.bestBlock h) => cBestBlock K s h
+  | .chain (.blocksDisconnected h) => cBlocksDisconnected K s h
+  | .chain (.txUnconfirmed t) => cTxUnconfirmed K s t
+  | .preimage p => cPreimage K s p
+
+def crun (cat : Catalog) (K : ClaimCat) (s : CSt) (ops : List COp) : CSt := ops.foldl (cstep cat K) s
+
+/-- the chain notifications of a history (preimage updates erased) -/
+def chainOps : List COp → List Op
+  | [] => []
+  | .chain op :: r => op :: chainOps r
+  | .preimage _ :: r => chainOps r
+
+/-- the preimages a history provides -/
+def preimagesOf : List COp → List Nat
+  | [] => []
+  | .chain _ :: r => preimagesOf r
+  | .preimage p :: r => p :: preimagesOf r
+
+/-- no `transaction_unconfirmed` in the history (the Confirm client that reports re-orgs only that
+    way is covered by the correspondence, see Props/C11.lean) -/
+def NoUnconf : List COp → Prop
+  | [] => True
+  | .chain (.txUnconfirmed _) :: _ => False
+  | _ :: r => NoUnconf r
 
 end Ldk.ChainView
